@@ -1,5 +1,5 @@
 (** C15 — proofs: the invariants of C15/Spec.v hold after every history. *)
-From Algo.C01 Require Import Model Spec SpecFacts ProofsQuery ProofsRun ProofsAVL ProofsRB Proofs.
+From Algo.C01 Require Import Model Spec SpecFacts ProofsQuery ProofsRun ProofsAVL ProofsRB ProofsRBDel Proofs.
 From Algo.C15 Require Import Spec.
 From Coq Require Import Lia.
 Open Scope Z_scope.
@@ -115,13 +115,127 @@ Section RB15.
     unfold rb_check. rewrite HB, (rbt_colors_ok t n HR), (rbt_black_height t n HR). reflexivity.
   Qed.
 
-  Theorem rb_after_put_history (h : list (mut K V)) :
-    forallb put_only h = true ->
+  Theorem rb_after_history (h : list (mut K V)) :
     exists t, build cmp RB h = Ok t /\
       black_balanced t /\ no_right_red t /\ no_red_red t /\ root_black t /\
       height t <= 2 * Z.log2 (size t + 1) /\ Height RB t = height t /\ rb_check t = true.
   Proof.
-    intros HA. destruct (rb_build_inv_put cmp TO h HA) as [t [E1 [_ I]]].
+    destruct (rb_build_inv cmp TO h) as [t [E1 [_ I]]].
     exists t. split; [exact E1|]. now apply rb_ok_props.
   Qed.
+
+  (** soundness of the boolean checker the correspondence runs on the node dump *)
+  Lemma black_height_sound (t : tree) n : black_height t = Some n -> black_paths t n.
+  Proof.
+    revert n. induction t as [|l IHl k v s h c r IHr]; intros n; cbn [black_height].
+    - intros [= <-]. constructor.
+    - destruct (black_height l) as [a|]; [|discriminate]. destruct (black_height r) as [b|]; [|discriminate].
+      destruct (Z.eqb_spec a b) as [->|]; [|discriminate]. destruct c; intros [= <-]; constructor; auto.
+  Qed.
+
+  Lemma rb_colors_ok_sound (t : tree) : rb_colors_ok t = true -> no_right_red t /\ no_red_red t.
+  Proof.
+    induction t as [|l IHl k v s h c r IHr]; cbn [rb_colors_ok no_right_red no_red_red]; [auto|].
+    intros H. repeat (apply andb_true_iff in H; destruct H as [H ?]).
+    destruct (IHl ltac:(assumption)), (IHr ltac:(assumption)).
+    apply negb_true_iff in H, H2. repeat split; auto.
+    intros ->. cbn [andb] in H2. exact H2.
+  Qed.
+
+  Lemma rb_check_sound (t : tree) :
+    rb_check t = true -> black_balanced t /\ no_right_red t /\ no_red_red t /\ root_black t.
+  Proof.
+    unfold rb_check. intros H. repeat (apply andb_true_iff in H; destruct H as [H ?]).
+    apply negb_true_iff in H. destruct (rb_colors_ok_sound t ltac:(assumption)).
+    destruct (black_height t) as [n|] eqn:E; [|discriminate].
+    split; [exists n; now apply black_height_sound|]. auto.
+  Qed.
 End RB15.
+
+(** ** the shape is determined by the pre-order and in-order traversals *)
+Section Shape.
+  Context {K V : Type}.
+  Variable cmp : K -> K -> Z.
+  Hypothesis TO : TotalOrder cmp.
+  Notation tree := (tree K V).
+
+  Lemma split_at_ok x (a b : list K) x' :
+    cmp x x' = 0 -> Forall (fun y => cmp x y <> 0) a -> split_at cmp x (a ++ x' :: b) = Some (a, b).
+  Proof.
+    intros E. induction 1 as [|y a Hy _ IH]; simpl.
+    - rewrite E. reflexivity.
+    - destruct (Z.eqb_spec (cmp x y) 0); [contradiction|]. now rewrite IH.
+  Qed.
+
+  Lemma shape_height_of (t : tree) : shape_height (shape_of t) = height t.
+  Proof. induction t as [|l IHl k v s h c r IHr]; cbn [shape_of shape_height height]; congruence. Qed.
+
+  Lemma olist_length o (t : tree) : o <> OtherOrder -> length (olist o t) = length (inorder t).
+  Proof. intros. apply Permutation.Permutation_length, olist_perm; auto. Qed.
+
+  Lemma rebuild_ok (t : tree) : forall fuel,
+    sorted cmp (inorder t) -> (length (olist VLR t) <= fuel)%nat ->
+    rebuild cmp fuel (map fst (olist VLR t)) (map fst (inorder t)) = Some (shape_of t).
+  Proof.
+    induction t as [|l IHl k v s h c r IHr]; intros fuel HS HF.
+    - destruct fuel; reflexivity.
+    - destruct (sorted_node cmp TO _ _ _ _ _ _ _ HS) as [Sl Sr].
+      rewrite inorder_node in *. cbn [olist] in *. cbn [length] in HF.
+      destruct fuel as [|f]; [lia|]. cbn [map rebuild fst]. rewrite !map_app. cbn [map fst].
+      apply (sorted_mid cmp TO) in HS. destruct HS as (_ & _ & HL & _).
+      rewrite (split_at_ok k (map fst (inorder l)) (map fst (inorder r)) k (cmp_refl TO k)).
+      2:{ apply Forall_forall. intros y Hy. apply in_map_iff in Hy. destruct Hy as [e [<- He]].
+          rewrite Forall_forall in HL. specialize (HL e He). apply (cmp_antisym TO) in HL. lia. }
+      rewrite map_length, <- (olist_length VLR l) by discriminate. rewrite <- (map_length fst (olist VLR l)).
+      rewrite firstn_app, Nat.sub_diag, firstn_all, firstn_O, app_nil_r.
+      rewrite skipn_app, Nat.sub_diag, skipn_all, skipn_O. cbn [app].
+      rewrite app_length in HF.
+      rewrite IHl, IHr by (auto; lia). reflexivity.
+  Qed.
+
+  Theorem shape_from_traversals_ok (t : tree) :
+    sorted cmp (inorder t) ->
+    shape_from_traversals cmp (trav_list VLR t) (trav_list LVR t) = Some (shape_of t).
+  Proof.
+    intros HS. unfold shape_from_traversals. rewrite !trav_list_olist, olist_LVR, <- inorder_olist.
+    now apply rebuild_ok.
+  Qed.
+End Shape.
+
+Section HeightAll.
+  Context {K V : Type}.
+  Variable cmp : K -> K -> Z.
+  Hypothesis TO : TotalOrder cmp.
+  Notation tree := (tree K V).
+
+  (** Height() is the height of the shape that the public traversals reveal *)
+  Definition height_ok (i : impl) (t : tree) : Prop :=
+    exists sh, shape_from_traversals cmp (trav_list VLR t) (trav_list LVR t) = Some sh /\
+               Height i t = shape_height sh.
+
+  Theorem bst_height_ok (h : list (mut K V)) :
+    exists t, build cmp BST h = Ok t /\ height_ok BST t.
+  Proof.
+    destruct (build_ok cmp BST _ _ (ProofsBST.bst_refines cmp TO) h (forallb_true h)) as [t [E1 [_ [HS _]]]].
+    exists t. split; [exact E1|]. exists (shape_of t). split; [now apply shape_from_traversals_ok|].
+    now rewrite shape_height_of.
+  Qed.
+
+  Theorem avl_height_ok (h : list (mut K V)) :
+    exists t, build cmp AVL h = Ok t /\ height_ok AVL t.
+  Proof.
+    destruct (build_ok cmp AVL _ _ (avl_refines cmp TO) h (forallb_true h)) as [t [E1 [_ [HS HI]]]].
+    exists t. split; [exact E1|]. exists (shape_of t). split; [now apply shape_from_traversals_ok|].
+    rewrite shape_height_of. cbn [Height]. now apply cheight_height.
+  Qed.
+
+  Theorem height_ok_all (i : impl) (h : list (mut K V)) :
+    exists t, build cmp i h = Ok t /\ height_ok i t.
+  Proof.
+    destruct (build_ok cmp i _ _ (refines_all cmp TO i) h (forallb_true h)) as [t [E1 [_ I]]].
+    exists t. split; [exact E1|]. exists (shape_of t).
+    split; [apply shape_from_traversals_ok; auto; exact (inv_sorted _ _ _ _ (refines_all cmp TO i) t I)|].
+    rewrite shape_height_of. destruct i; cbn [Height]; try reflexivity.
+    apply cheight_height. apply I.
+  Qed.
+End HeightAll.
